@@ -1,21 +1,35 @@
 import SamplyModel.Proto
 import SamplyModel.Model.ChunkCache
+import SamplyModel.Model.ChunkCacheShared
 /-!
 Line protocol for C13.
 
 ops:  `file <len> <seed> <pat> <period> <badLo> <badHi>`   (first line: the file, by generator, and the
                                                             byte range on which the source fails)
       `read <offset> <size>` | `until <lo> <hi> <delim>` | `into <offset> <size>`
+      the shared.rs layer (Model/ChunkCacheShared.lean):
+      `entire`                                   `FileContentsWrapper::read_entire_data`
+      `wread <offset> <size>` | `wuntil <lo> <hi> <delim>`     `<&FileContentsWrapper as ReadRef>::…`
+      `vread <base> <k> <s1> <z1> … <sk> <zk> <offset> <size>`  `RangeReadRef::read_bytes_at` on the view
+      `vuntil <base> <k> <s1> <z1> … <sk> <zk> <lo> <hi> <delim>`   `<base>` = `full` (`full_range()`) or
+                                                 `r:<start>:<size>` (`range(start, size)`), followed by `k`
+                                                 nested `make_subrange(s_i, z_i)` calls
       `t <k> <op…>`   the same operations issued by thread `k` of a group of concurrent threads
                       (a maximal run of consecutive `t` lines is one concurrent section; the model executes
                       it in listing order — by `C13_history_independent` every interleaving gives the same
                       outcomes)
+      `srcmode <k>`   from now on the byte source is unfaithful (excluded point of `Faithful`): a request that ends
+                      exactly at EOF is answered with success but `k` bytes too few (`k > 0`, at most the request)
+                      or `-k` zero bytes too many (`k < 0`); `srcmode 0` restores the faithful source. The cache
+                      panics (`assert!`, cache.rs:67) when it plans such a buffer; `read_bytes_into` hands the
+                      wrong-sized answer through. Output line: `srcmode`.
       `sync`          after a concurrent section: the harness reports whether two of the section's threads
                       were ever inside the byte source of this cache at the same time (`into` calls excepted,
                       they bypass the cache). The code holds the buffer-manager mutex from planning a read to
                       inserting the buffer (cache.rs:55-75), which is what makes "listing order" a faithful
                       model of every schedule; the model therefore always answers `sync overlap=0`.
 out:  one line per op: `ok <len> <hex>` (len ≤ 40) | `ok <len> h:<fnv1a-64>` | `err:<kind>` | `panic`
+      (`err:readref` = the `Err(())` of the `ReadRef` impls)
       (a panic ends the case); `sync overlap=<0|1>` for a `sync` line
 
 The file is never printed: byte `i` is `genByte g i`, computed identically by the harness
@@ -80,20 +94,73 @@ def parseOpWords : List String → Option Op
   | ["into", o, n] => do pure (.into (← o.toNat?) (← n.toNat?))
   | _ => none
 
-/-- an op line, with or without the `t <k>` prefix; `some none` = a `sync` line -/
-def parseOp (l : String) : Option (Option Op) :=
-  match words l with
-  | ["sync"] => some none
-  | "t" :: _ :: rest => (parseOpWords rest).map some
-  | ws => (parseOpWords ws).map some
+def parseBase (b : String) : Option (Option (Nat × Nat)) :=
+  if b = "full" then some none else
+  match b.splitOn ":" with
+  | ["r", s, z] => do pure (some (← s.toNat?, ← z.toNat?))
+  | _ => none
 
-def parse (ls : List String) : Option (Gen × List (Option Op)) :=
+/-- `2k` numbers as `k` pairs, and the rest -/
+def takePairs : Nat → List String → Option (List (Nat × Nat) × List String)
+  | 0, ws => some ([], ws)
+  | k + 1, a :: b :: ws => do
+    let x ← a.toNat?
+    let y ← b.toNat?
+    let (ps, rest) ← takePairs k ws
+    pure ((x, y) :: ps, rest)
+  | _, _ => none
+
+def parseXOpWords : List String → Option XOp
+  | ["entire"] => some (.view .entire)
+  | ["wread", o, n] => do pure (.view (.wread (← o.toNat?) (← n.toNat?)))
+  | ["wuntil", lo, hi, d] => do pure (.view (.wuntil ⟨← lo.toNat?, ← hi.toNat?⟩ (UInt8.ofNat (← d.toNat?))))
+  | "vread" :: b :: k :: rest => do
+    let base ← parseBase b
+    let (subs, rest) ← takePairs (← k.toNat?) rest
+    match rest with
+    | [o, n] => pure (.view (.vread base subs (← o.toNat?) (← n.toNat?)))
+    | _ => none
+  | "vuntil" :: b :: k :: rest => do
+    let base ← parseBase b
+    let (subs, rest) ← takePairs (← k.toNat?) rest
+    match rest with
+    | [lo, hi, d] => pure (.view (.vuntil base subs ⟨← lo.toNat?, ← hi.toNat?⟩ (UInt8.ofNat (← d.toNat?))))
+    | _ => none
+  | ws => (parseOpWords ws).map .base
+
+/-- an op line -/
+inductive Line
+  | sync
+  | srcmode (k : Int)
+  /-- a call, with (`true`) or without the `t <k>` prefix -/
+  | call (inThread : Bool) (op : XOp)
+
+def parseInt (s : String) : Option Int :=
+  if s.startsWith "-" then (s.drop 1).toNat?.map fun n => - (Int.ofNat n) else s.toNat?.map Int.ofNat
+
+def parseOp (l : String) : Option Line :=
+  match words l with
+  | ["sync"] => some .sync
+  | ["srcmode", k] => (parseInt k).map .srcmode
+  | "t" :: _ :: rest => (parseXOpWords rest).map (.call true)
+  | ws => (parseXOpWords ws).map (.call false)
+
+def parse (ls : List String) : Option (Gen × List Line) :=
   match ls with
   | l :: rest => do
     let g ← parseGen l
     let ops ← rest.mapM parseOp
     pure (g, ops)
   | [] => none
+
+/-- the harness's source in mode `k` (see `srcmode`) -/
+def srcMode (g : Gen) (k : Int) (o n : Nat) : Option (List UInt8) :=
+  match src g o n with
+  | none => none
+  | some bs =>
+    if k = 0 ∨ o + n ≠ g.len ∨ n = 0 then some bs
+    else if 0 < k then some (bs.take (n - min k.toNat n))
+    else some (bs ++ List.replicate (-k).toNat 0)
 
 def fnv (bs : List UInt8) : UInt64 :=
   bs.foldl (fun h b => (h ^^^ b.toUInt64) * 0x100000001b3) 0xcbf29ce484222325
@@ -110,6 +177,7 @@ def showErr : Err → String
   | .badRange => "err:badrange"
   | .noDelim => "err:nodelim"
   | .source => "err:source"
+  | .discarded => "err:readref"
 
 def showOut : Out (List UInt8) → String
   | .ok bs => showBytes bs
@@ -123,21 +191,28 @@ def tooLarge (g : Gen) : Op → Bool
   | .into o n => decide (16777216 < n) && decide (o + n ≤ g.len)
   | .until_ _ _ => false
 
+def xTooLarge (g : Gen) : XOp → Bool
+  | .base op => tooLarge g op
+  | .view .entire => decide (16777216 < g.len)
+  | .view (.wread o n) => tooLarge g (.read o n)
+  | .view (.vread base subs o n) => tooLarge g (.read (viewStart base subs + o) n)
+  | .view _ => false
+
 def model (ls : List String) : List String :=
   match parse ls with
   | none => ["bad-op"]
   | some (g, ops) =>
-    let c : Cfg := ⟨realChunk, src g⟩
-    let rec go (st : St) (ops : List (Option Op)) (acc : List String) : List String :=
+    let rec go (k : Int) (st : St) (ops : List Line) (acc : List String) : List String :=
       match ops with
       | [] => acc.reverse
-      | none :: rest => go st rest ("sync overlap=0" :: acc)
-      | some op :: rest =>
-        if tooLarge g op then go st rest ("skip:too-large" :: acc) else
-        match step c st op with
+      | .sync :: rest => go k st rest ("sync overlap=0" :: acc)
+      | .srcmode k' :: rest => go k' st rest ("srcmode" :: acc)
+      | .call _ op :: rest =>
+        if xTooLarge g op then go k st rest ("skip:too-large" :: acc) else
+        match xstep ⟨realChunk, srcMode g k⟩ st op with
         | (_, .panic) => ("panic" :: acc).reverse
-        | (st', out) => go st' rest (showOut out :: acc)
-    go (St.init g.len) ops []
+        | (st', out) => go k st' rest (showOut out :: acc)
+    go 0 (St.init g.len) ops []
 
 /-! ### The judge: C13's statement evaluated on the implementation's own output, from the file alone. -/
 
@@ -164,8 +239,19 @@ inductive Verdict
 
 def isErr (o : String) : Bool := o.startsWith "err:"
 
-/-- judge one outcome line against the file -/
-def judgeOp (g : Gen) (op : Op) (o : String) : Verdict :=
+/-- Byte ranges that an earlier call of this case returned successfully (each lies inside one buffer whose
+bytes the deterministic source delivered): a later request inside one of them needs nothing from the source
+that the source has not delivered before, so it must not fail with the source's error. -/
+def inOk (okRanges : List (Nat × Nat)) (lo hi : Nat) : Bool :=
+  okRanges.any fun r => decide (r.1 ≤ lo) && decide (hi ≤ r.2)
+
+/-- judge one outcome line against the file. `view`: the call went through a `ReadRef` impl of shared.rs,
+which reduces every error to `Err(())` (`err:readref`), so the kind of an error cannot be checked there.
+`okRanges` is only consulted to reject a source error (`[]` inside thread sections, where the listing order
+is not the execution order). -/
+def judgeOp (g : Gen) (view : Bool) (okRanges : List (Nat × Nat)) (op : Op) (o : String) : Verdict :=
+  let isSrc := o = "err:source" ∨ (view ∧ o = "err:readref")
+  let isNoDelim := o = "err:nodelim" ∨ (view ∧ o = "err:readref")
   if tooLarge g op then (if o = "skip:too-large" then .good else .bad s!"unexpected {o} for a skipped request") else
   if o = "panic" then
     -- excluded point of the theorems (`F.length + chunk < 2^64`): tagged so that it can be told apart
@@ -174,6 +260,8 @@ def judgeOp (g : Gen) (op : Op) (o : String) : Verdict :=
   if o.startsWith "clobbered" then
     .bad "read_bytes_into did not append to the caller's buffer: the bytes already in it were lost" else
   if !(isErr o || o.startsWith "ok ") then .bad s!"unparsable output {o}" else
+  if view ∧ isErr o ∧ o ≠ "err:readref" then .bad s!"a ReadRef impl reported {o} instead of Err(())" else
+  if !view ∧ o = "err:readref" then .bad s!"unexpected {o} from a FileContents method" else
   match op with
   | .read off n =>
     if n = 0 then
@@ -186,24 +274,28 @@ def judgeOp (g : Gen) (op : Op) (o : String) : Verdict :=
       let want := showBytes (fileSlice g off n)
       if o = want then .good
       else if o.startsWith "ok " then .bad s!"read {off}+{n} returned wrong bytes: {o}, file has {want}"
-      else if o = "err:source" ∧ badInHull g off (off + n) then .good
+      else if isSrc ∧ badInHull g off (off + n) then
+        if inOk okRanges off (off + n) then
+          .bad s!"read {off}+{n} failed with the source's error although an earlier call returned these bytes (nothing had to be read)"
+        else .good
       else .bad s!"in-bounds read {off}+{n} failed with {o} although the source does not fail there"
   | .until_ r d =>
     if r.hi < r.lo ∨ g.len < r.hi then
       if isErr o then .good else .bad s!"ill-formed/out-of-bounds delimited read {r.lo}..{r.hi} did not fail: {o}"
     else
       let m := min (r.hi - r.lo) 4096
+      let srcOk := isSrc ∧ badInHull g r.lo (r.lo + m) ∧ !(inOk okRanges r.lo (r.lo + m))
       match firstDelim g r.lo d m with
       | some k =>
         let want := showBytes (fileSlice g r.lo k)
         if o = want then .good
         else if o.startsWith "ok " then .bad s!"until {r.lo}..{r.hi} d={d} returned {o}, file has {want}"
-        else if o = "err:source" ∧ badInHull g r.lo (r.lo + m) then .good
-        else .bad s!"until {r.lo}..{r.hi} d={d} failed with {o} although the delimiter is at +{k} and the source does not fail there"
+        else if srcOk then .good
+        else .bad s!"until {r.lo}..{r.hi} d={d} failed with {o} although the delimiter is at +{k} and the source does not fail there (or the window was returned before)"
       | none =>
         if o.startsWith "ok " then .bad s!"until {r.lo}..{r.hi} d={d} returned {o} although no delimiter lies in range/limit"
-        else if o = "err:nodelim" then .good
-        else if o = "err:source" ∧ badInHull g r.lo (r.lo + m) then .good
+        else if isNoDelim then .good
+        else if srcOk then .good
         else .bad s!"until {r.lo}..{r.hi} d={d}: unexpected {o}"
   | .into off n =>
     if g.len < off + n ∨ hitsBad g off n then
@@ -212,31 +304,113 @@ def judgeOp (g : Gen) (op : Op) (o : String) : Verdict :=
       let want := showBytes (fileSlice g off n)
       if o = want then .good else .bad s!"into {off}+{n} gave {o}, file has {want}"
 
+/-- do the nested `make_subrange` starts overflow `u64` at some step? (specification side: running sums) -/
+def subsOverflow (start : Nat) : List (Nat × Nat) → Bool
+  | [] => false
+  | (s, _) :: rest => decide (U64 ≤ start + s) || subsOverflow (start + s) rest
+
+def baseStart : Option (Nat × Nat) → Nat
+  | none => 0
+  | some (s, _) => s
+
+def sumStarts (start : Nat) (subs : List (Nat × Nat)) : Nat := subs.foldl (fun a p => a + p.1) start
+
+/-- judge a call of either layer: a view call is the file-level call at the shifted offset (the view's sizes
+do not restrict it — shared.rs never consults `range_size`), with opaque errors; a shifted offset or a
+`make_subrange` start beyond `u64` must fail cleanly. -/
+def judgeX (g : Gen) (okRanges : List (Nat × Nat)) (op : XOp) (o : String) : Verdict :=
+  match op with
+  | .base op => judgeOp g false okRanges op o
+  | .view .entire =>
+    if decide (16777216 < g.len) then (if o = "skip:too-large" then .good else .bad s!"unexpected {o} for a skipped request")
+    else if g.len = 0 then (if o = "ok 0 -" then .good else .bad s!"read_entire_data of an empty file gave {o}")
+    else judgeOp g false okRanges (.read 0 g.len) o
+  | .view (.wread off n) => judgeOp g true okRanges (.read off n) o
+  | .view (.wuntil r d) => judgeOp g true okRanges (.until_ r d) o
+  | .view (.vread base subs off n) =>
+    if subsOverflow (baseStart base) subs then
+      if o = "err:readref" then .good
+      else .bad s!"[subrange-start-overflow] make_subrange starts add up to 2^64 or more: expected a clean error, got {o}"
+    else
+      let s := sumStarts (baseStart base) subs
+      if U64 ≤ s + off then
+        (if o = "err:readref" then .good else .bad s!"view read at an offset overflowing u64 gave {o}")
+      else judgeOp g true okRanges (.read (s + off) n) o
+  | .view (.vuntil base subs r d) =>
+    if subsOverflow (baseStart base) subs then
+      if o = "err:readref" then .good
+      else .bad s!"[subrange-start-overflow] make_subrange starts add up to 2^64 or more: expected a clean error, got {o}"
+    else
+      let s := sumStarts (baseStart base) subs
+      judgeOp g true okRanges (.until_ ⟨s + r.lo, s + r.hi⟩ d) o
+
+/-- the byte range a successful outcome proves to be cached -/
+def okRangeOf (g : Gen) (op : XOp) (o : String) : Option (Nat × Nat) :=
+  if !(o.startsWith "ok ") then none else
+  let len := ((words o).getD 1 "0").toNat?.getD 0
+  let rd (off n : Nat) : Option (Nat × Nat) := if n = 0 then none else some (off, off + n)
+  let un (lo : Nat) : Option (Nat × Nat) := some (lo, lo + len + 1)
+  match op with
+  | .base (.read off n) => rd off n
+  | .base (.until_ r _) => un r.lo
+  | .base (.into _ _) => none
+  | .view .entire => rd 0 g.len
+  | .view (.wread off n) => rd off n
+  | .view (.wuntil r _) => un r.lo
+  | .view (.vread base subs off n) => rd (sumStarts (baseStart base) subs + off) n
+  | .view (.vuntil base subs r _) => un (sumStarts (baseStart base) subs + r.lo)
+
+/-- the cache-level request behind a call (for the unfaithful-source clause) -/
+def xUnder (g : Gen) : XOp → Op
+  | .base op => op
+  | .view v => v.under g.len
+
+/-- may this call have to read a buffer that ends at EOF (chunk-rounded hull of the request reaches EOF)? -/
+def hullReachesEof (g : Gen) : Op → Bool
+  | .read o n => decide (0 < n) && decide (o + n ≤ g.len) && decide (g.len ≤ (o + n + realChunk - 1) / realChunk * realChunk)
+  | .until_ r _ =>
+    let m := min (r.hi - r.lo) 4096
+    decide (0 < m) && decide (r.hi ≤ g.len) && decide (g.len ≤ (r.lo + m + realChunk - 1) / realChunk * realChunk)
+  | .into o n => decide (0 < n) && decide (o + n = g.len)
+
+def isInto : Op → Bool
+  | .into _ _ => true
+  | _ => false
+
 def judge (ops impl : List String) : Bool × String :=
   match parse ops with
   | none => (false, "bad-op")
   | some (g, opl) =>
     if impl.length ≠ opl.length ∧ impl.getLast? ≠ some "panic" then (false, "wrong number of output lines") else
     -- every outcome against the file; and equal requests must have equal outcomes (history independence)
-    let rec go (opl : List (Option Op)) (outs : List String) (seen : List (Op × String)) : Bool × String :=
+    let rec go (k : Int) (opl : List Line) (outs : List String) (seen : List (XOp × String))
+        (okR : List (Nat × Nat)) : Bool × String :=
       match opl, outs with
       | [], [] => (true, "ok")
       -- a `sync` line reports on the schedule, not on the bytes: nothing of the statement to judge
-      | none :: os, o :: rest => if o.startsWith "sync" then go os rest seen else (false, s!"unparsable output {o}")
-      | some op :: os, o :: rest =>
-        match judgeOp g op o with
+      | .sync :: os, o :: rest => if o.startsWith "sync" then go k os rest seen okR else (false, s!"unparsable output {o}")
+      | .srcmode k' :: os, o :: rest => if o = "srcmode" then go k' os rest seen okR else (false, s!"unparsable output {o}")
+      | .call inThread op :: os, o :: rest =>
+        -- the statement's hypothesis (the source delivers what it claims) is violated by the harness on
+        -- purpose: a call that may have to fetch the buffer ending at EOF may panic (FileByteSource contract),
+        -- `read_bytes_into` hands the wrong-sized answer through; everything else is judged as usual
+        if k ≠ 0 ∧ hullReachesEof g (xUnder g op) ∧ (o = "panic" ∨ isInto (xUnder g op)) then
+          (if o = "panic" then (true, "ok") else go k os rest seen okR)   -- a panic ends the case
+        else
+        match judgeX g (if inThread then [] else okR) op o with
         | .bad why => (false, why)
         | .good =>
+          let okR := match okRangeOf g op o with | some r => r :: okR | none => okR
           -- a failure of the byte source carries no information about the cache (a delimited read may
           -- legitimately succeed from the string cache where a fresh cache would have to read a buffer the
           -- source refuses): only outcomes not blamed on the source are compared
-          if o = "err:source" then go os rest seen else
+          if o = "err:source" ∨ (o = "err:readref" ∧ g.badLo < g.badHi) then go k os rest seen okR else
           match seen.find? (fun e => e.1 == op) with
           | some (_, o') =>
-            if o' = o then go os rest seen
+            if o' = o then go k os rest seen okR
             else (false, s!"history-dependent: the same request gave {o'} earlier and {o} now")
-          | none => go os rest ((op, o) :: seen)
+          | none => go k os rest ((op, o) :: seen) okR
       | _, _ => (false, "length mismatch")
-    go opl impl []
+    go 0 opl impl [] []
 
 end C13
